@@ -533,9 +533,21 @@ def _address_uri(ctx, repo):
                "store of the URI is dominated by a successful fullmatch",
                "DiameterURI data can be stored without passing the grammar check (re.fullmatch)", key="fullmatch")
     # the pattern must require the aaa / aaas scheme
-    pats = [n for n in ast.walk(fn) if isinstance(n, ast.Assign) and any(
-        isinstance(t, ast.Name) and t.id == "pattern" for t in n.targets)]
-    if pats:
+    # (the pattern is the first argument of every fullmatch call: a literal, a module constant or a local bound once)
+    pats = []
+    for c_ in ast.walk(fn):
+        if isinstance(c_, ast.Call) and ast.unparse(c_.func).endswith("fullmatch") and c_.args:
+            a0 = c_.args[0]
+            if isinstance(a0, ast.Name):
+                binds = [n for n in ast.walk(fn) if isinstance(n, ast.Assign) and any(
+                    isinstance(t, ast.Name) and t.id == a0.id for t in n.targets)]
+                if len(binds) == 1:
+                    a0 = binds[0].value
+            pats.append(ast.copy_location(ast.Assign(targets=[ast.Name(id="pattern", ctx=ast.Store())], value=a0), c_))
+    if not pats:
+        ctx.undecided("R-TABLE/uri-scheme", f"{ut.qual}.{fn.name}", ut.where(fn), "no fullmatch call with a pattern argument", key="scheme")
+    for pat_ in pats:
+        pats = [pat_]
         v = repo.fold(ut.mod, pats[-1].value)
         if isinstance(v, str):
             ctx.decide(v.startswith("aaa") and "://" in v[:14], "R-TABLE/uri-scheme", f"{ut.qual}.{fn.name}",
